@@ -258,7 +258,7 @@ def format_meter(n, total, elapsed, n_bars=20):
     # n - number of finished iterations
     # total - total number of iterations, or None
     # elapsed - number of seconds passed since start
-    if n > total:
+    if total is not None and n > total:
         total = None
 
     elapsed_str = format_interval(elapsed)
